@@ -8,6 +8,7 @@ import CasbinModel.Sexpr
 import CasbinModel.Fs
 import CasbinModel.Cached
 import CasbinModel.Config
+import CasbinModel.Conc
 /-!
 # Line-protocol driver: runs the executable model on the harness' op stream.
 One op per input line, one canonical answer per output line.
@@ -76,6 +77,19 @@ def rmSnap (rm : RoleMgr String) (names : List String) (doms : List String) (mas
   "H:" ++ bits ++ String.join lists
 
 /-! ### C02 -/
+/-- lock programs on the wire: `aR1` acquire read lock 1, `rW0` release write lock 0, `t` local step; comma-separated -/
+def concAct (s : String) : Option Conc.Act :=
+  match s.toList with
+  | ['t'] => some .tau
+  | c :: m :: ds =>
+    let mode : Option Conc.Mode := if m == 'R' then some .R else if m == 'W' then some .W else none
+    match mode, (String.ofList ds).toNat? with
+    | some md, some l => if c == 'a' then some (.acq md l) else if c == 'r' then some (.rel md l) else none
+    | _, _ => none
+  | _ => none
+def concProg (s : String) : Option (List Conc.Act) :=
+  if s == "-" || s == "" then some [] else (s.splitOn ",").mapM concAct
+
 def effOfChar : Char → Eff
   | 'a' => .allow | 'i' => .indet | _ => .deny
 
@@ -328,6 +342,18 @@ def step (st : DrvState) (f : List String) : DrvState × String :=
     (st, match EffExpr.ofString (unesc expr) with
          | none => "panic"
          | some e => effRun (Stream.new e cap.toNat!) seq.toList)
+  | ["conc.disc", nL, prog] =>
+    (st, match concProg prog with
+      | none => "bad-op"
+      | some p => if Conc.disc nL.toNat! [] p then "disciplined" else "undisciplined")
+  | ["conc.explore", pol, progs] =>
+    (st, match (progs.splitOn ";").mapM concProg with
+      | none => "bad-op"
+      | some ps =>
+        let pl : Conc.Policy := if pol == "fair" then Conc.fairPol else Conc.eagerPol
+        match Conc.explore pl 400000 [Conc.initState ps] 0 with
+        | (some _, _) => "deadlock"
+        | (none, n) => if n ≥ 1000000000 then "fuel" else "no-deadlock")
   | ["cfg.parse", text] =>
     (st, match modelFromText (unesc text).toList with
       | none => "err"
